@@ -284,9 +284,9 @@ def r4_source_untouched(ctx):
     ok = txt.startswith('copy.deepcopy(') and 'read_model_from_bytearray(self._model_content)' in txt
   ctx.check(R, ok and not hits, m.node, m, 'transform_graph(<deep copy of parse(self._model_content)>)',
             'the graph that is transformed must be a deep copy of a fresh parse of the source bytes (parser buffers are views of the caller\'s bytes)')
-  q = ctx.repo.func('quantizer:Quantizer._get_quantized_model')
-  c = [x for x in common.calls_in(q.node) if common.call_name(x).endswith('ModelModifier')]
-  ctx.check(R, len(c) == 1 and [ast.unparse(a) for a in c[0].args] == ['self.float_model'], q.node, q, 'ModelModifier(self.float_model)', 'the modifier must be given the float model')
+  qc = ctx.repo.cls('quantizer:Quantizer')
+  c = [x for m2 in qc.methods.values() for x in common.calls_in(m2.node) if common.call_name(x).endswith('ModelModifier')]
+  ctx.check(R, len(c) >= 1 and all([ast.unparse(a) for a in x.args] == ['self.float_model'] for x in c), qc.node, qc.module, 'ModelModifier(self.float_model)', 'the modifier must be given the float model')
 
 
 def run(ctx):
